@@ -304,3 +304,47 @@ def enc_ggrammar(num, kw_corr=4):
         fqn = [ord(c) for c in t.fqn]
         out += [int(t.prior), weight, 1 if strlike else 0, fin, len(fqn)] + fqn
     return out
+
+
+def enc_items(num, table, lalr, start_production=1):
+    """Item sets and FIRST data of an implementation table for the completeness validator
+    (`lrvalid`): per state the items (production, dot, lookahead terminals) -- the item's own
+    lookahead set for LALR, FOLLOW of its left-hand side for SLR -- and per nonterminal
+    (nullable, FIRST)."""
+    from parglare.grammar import AUGSYMBOL, Production, ProductionRHS
+    from parglare.tables import first, follow
+    g = num.grammar
+    fs = first(g)
+    fo = None
+    if not lalr:
+        old = g.productions[0]
+        try:
+            aug = Production(AUGSYMBOL, ProductionRHS([g.productions[start_production].symbol, STOP]))
+            aug.prod_id = 0
+            g.productions[0] = aug
+            fo = follow(g, fs)
+        finally:
+            g.productions[0] = old
+    out = [len(table.states)]
+    for s in table.states:
+        out.append(len(s.items))
+        for it in s.items:
+            if it.production.prod_id == 0:
+                la = []
+            elif lalr:
+                la = sorted(num.term(t) for t in (it.follow or ()) if t is not EMPTY)
+            else:
+                la = sorted(num.term(t) for t in fo[it.production.symbol] if t is not EMPTY)
+            out += [it.production.prod_id, it.position, len(la)] + la
+    out.append(len(num.nts))
+    start_sym = g.productions[start_production].symbol
+    for nt in num.nts:
+        f = fs.get(nt, set())
+        if nt.name == "S'":
+            # FIRST of the augmented symbol for the requested start production: S' -> start STOP
+            f = set(fs[start_sym])
+            if EMPTY in f:
+                f = (f - {EMPTY}) | {STOP}
+        ts = sorted(num.term(t) for t in f if t is not EMPTY)
+        out += [1 if EMPTY in f else 0, len(ts)] + ts
+    return out
